@@ -11,7 +11,6 @@ use super::{
 };
 use alloc::vec::Vec;
 use serde::Deserialize;
-use serde_json::Deserializer;
 
 /// A connection that can only be used for reading.
 ///
@@ -121,10 +120,16 @@ impl<Read: ReadHalf> ReadConnection<Read> {
     {
         self.read_from_socket().await?;
 
-        let mut stream = Deserializer::from_slice(&self.buffer[self.msg_pos..]).into_iter::<M>();
-        let msg = stream.next();
-        let null_index = self.msg_pos + stream.byte_offset();
+        // A frame ends at its NUL terminator, whatever the decoder makes of its content: a frame
+        // that fails to decode (or is padded with whitespace) must consume exactly itself.
+        let frame = &self.buffer[self.msg_pos..self.read_pos];
+        let null_index = self.msg_pos
+            + frame
+                .iter()
+                .position(|&b| b == b'\0')
+                .unwrap_or(frame.len());
         let buffer = &self.buffer[self.msg_pos..null_index];
+        let msg = serde_json::from_slice::<M>(buffer);
         if self.buffer[null_index + 1] == b'\0' {
             // This means we're reading the last message and can now reset the indices.
             self.read_pos = 0;
@@ -134,7 +139,7 @@ impl<Read: ReadHalf> ReadConnection<Read> {
         }
 
         match msg {
-            Some(Ok(msg)) => {
+            Ok(msg) => {
                 // SAFETY: Since the parsing from JSON already succeeded, we can be sure that the
                 // buffer contains a valid UTF-8 string.
                 trace!("connection {}: received a message: {}", self.id, unsafe {
@@ -142,8 +147,7 @@ impl<Read: ReadHalf> ReadConnection<Read> {
                 });
                 Ok(msg)
             }
-            Some(Err(e)) => Err(e.into()),
-            None => Err(crate::Error::UnexpectedEof),
+            Err(e) => Err(e.into()),
         }
     }
 
